@@ -446,6 +446,9 @@ func experimenter(c *C, n *N) {
 				c.end = save
 				if c.pos < c.end {
 					c.Pad((8 - l%8) % 8)
+					if c.pos >= c.end {
+						c.fail("%d zero bytes follow the embedded message but no property does (the padding exists only in front of a property)", (8-l%8)%8)
+					}
 				}
 			}
 			c.List(e, "Properties", bundleProp)
